@@ -411,7 +411,17 @@ class CallListerVisitor(ast.NodeVisitor):
                 self.namespace[node.id] = Unknown(node)
 
     def visit_Attribute(self, node):
-        pass
+        if not isinstance(node.value, ast.Name):
+            # the object may be the result of a forwarding call
+            self.visit(node.value)
+            return
+        marker = self.namespace.get(node.value.id)
+        if isinstance(marker, Arg):
+            # an attribute of a parameter that is taken without being called
+            # (a bound method kept for later) can do what a method call can
+            marker.tainted = node
+            if self.namespace.parent is not None:
+                self.late_tainted.append(marker)
 
     def has_hide_starargs(self, found, original):
         if found:
